@@ -409,7 +409,7 @@ type hwDoc struct {
 	ZeroV  hwInner
 }
 
-var hwExprs = []string{"!@", "@ || Name", "@ && Name", "Items[?@]", "Items[?!@]", "Items[?@].Name", "[Ptr, NilPtr][?@]", "Ptr && Name", "!Ptr", "Ptr || Name", "!Zero", "Zero && Name", "Zero || Name", "[Zero][?@]", "[Zero, NilPtr, Ptr][?@].Name", "!ZeroV", "ZeroV && Name", "[ZeroV][?@]", "!Inner", "Items[?@ && Name]", "length(PSlice)", "reverse(PSlice)", "PSlice[0]", "PSlice[*]", "PSlice[1:]", "PSlice[]", "PSlice[?@]", "contains(PSlice, 'a')", "map(&@, PSlice)", "sort_by(PSlice, &@)", "max_by(PSlice, &@)", "min_by(PSlice, &@)", "sort(PSlice)", "join(',', PSlice)",
+var hwExprs = []string{"PSlice.x", "PSlice.Name", "PNil.x", "PSlice.x.y", "[PSlice.x]", "PSlice.*", "Items[*].Tags.x", "Nums.x", "Strs[0].x", "!@", "@ || Name", "@ && Name", "Items[?@]", "Items[?!@]", "Items[?@].Name", "[Ptr, NilPtr][?@]", "Ptr && Name", "!Ptr", "Ptr || Name", "!Zero", "Zero && Name", "Zero || Name", "[Zero][?@]", "[Zero, NilPtr, Ptr][?@].Name", "!ZeroV", "ZeroV && Name", "[ZeroV][?@]", "!Inner", "Items[?@ && Name]", "length(PSlice)", "reverse(PSlice)", "PSlice[0]", "PSlice[*]", "PSlice[1:]", "PSlice[]", "PSlice[?@]", "contains(PSlice, 'a')", "map(&@, PSlice)", "sort_by(PSlice, &@)", "max_by(PSlice, &@)", "min_by(PSlice, &@)", "sort(PSlice)", "join(',', PSlice)",
 	"to_array(PSlice)", "to_string(PSlice)", "type(PSlice)", "not_null(PSlice)", "PSlice == PSlice", "PSlice || Name", "length(PNil)", "reverse(PNil)", "PNil[0]", "PNil[*]", "contains(PNil, 'a')", "map(&@, PNil)", "type(PNil)", "merge(@, {a: PSlice})", "keys(PSlice)", "values(PSlice)", "max(PSlice)", "sum(PSlice)", "\"ǆep\"", "\"Ǆep\"", "\"ǅep\"", "\"ანი\"", "\"Ანი\"", "[\"ǆep\", \"ანი\"]", "Items[*].\"ǆep\"", "length(\"ანი\")", "_x", "lower", "Lower", "\"ünï\"", "\"Ünï\"", "Items[*].\"ünï\"", "\"ωmega\"", "@.\"Ωmega\"", "[\"ünï\", \"ωmega\"]", "{a: \"ünï\"}", "\"ünï\" || Name", "length(\"ünï\")", "Label", "label", "hwEmbedded", "HwEmbedded.Label", "NilPtr.[Name]", "NilPtr.{a: Name}",
 	"NilPtr || Name", "NilPtr && Name", "!NilPtr", "Items[*].Name", "Items[?Name].Tags[]", "Items[].Tags", "Items[0]", "Items[1]", "Items[1].[Name]", "Items[*].[Name]", "[Ptr, NilPtr]",
 	"reverse(Nums)", "reverse(Strs)", "contains(Strs, 'a')", "contains(Nums, `1`)", "map(&@, Nums)", "map(&Name, Items)", "sort_by(Items, &Name)", "max_by(Items, &Name)", "min_by(Items, &Name)",
@@ -687,6 +687,10 @@ func TestC19(t *testing.T) {
 			hs := strings.Replace(genHardString(t, "cliExprS"), "\x00", "\x01", -1)
 			if uni(t, 2, "cliExprCtl") == 0 {
 				hs = "a" + string(rune([]int{1, 7, 8, 0x1b, 0x1f, 0x7f, 0x80, 0x85, 0x9f, 0x2028, 0xfeff, 0xa0, 0x0c, 0x0b}[uni(t, 14, "cliCtl")])) + "b"
+			}
+			if uni(t, 4, "cliExprComment") == 0 {
+				// text that a line-oriented pre-processor would take for a comment, a continuation or an option
+				hs = []string{"todo:\n#1 fix", "x\n  # y\nz", "a\r\n#b", "#", "a # b", "// c", "/* c */", "-- c", "a \\\nb", "\n", "\n\n#", "#!/bin/sh", "-h", "--", "@file", "$HOME", "%PATH%", "a;b", "a\tb # c"}[uni(t, 19, "cliComment")]
 			}
 			minimal := func(x string) string {
 				var sb strings.Builder
